@@ -42,11 +42,28 @@ def run(repo, res, tier):
     mod = repo.mod(SO)
 
     def enum_table(name):
+        """member name -> value as python data; the member expressions are folded with the abstract evaluator, so
+        tables built from shared prefixes, unpacking or comprehensions over constants are read like literal ones"""
+        from ..strdom import Ev, ListV, Str
+
         c = repo.cls(SO, name)
-        try:
-            return {k: lit(v) for k, v in c.enum_members().items()}
-        except (ValueError, SyntaxError):
-            raise AnalysisError("%s members are not literal tables any more" % name)
+
+        def py(v):
+            if isinstance(v, Str) and v.is_lit():
+                return v.text()
+            if isinstance(v, ListV):
+                return tuple(py(x) for x in v.items) if type(v).__name__ == "TupV" else [py(x) for x in v.items]
+            if isinstance(v, (int, float, bool)):
+                return v
+            raise AnalysisError("%s: member value %r is not a constant table" % (name, v))
+
+        out = {}
+        for k, v in c.enum_members().items():
+            try:
+                out[k] = lit(v)
+            except (ValueError, SyntaxError):
+                out[k] = py(Ev(repo).ev(v, {"__mod__": c.mod}, c.mod))
+        return out
 
     sf = enum_table("StateFields")
     xf = enum_table("XMLStateFields")
@@ -150,21 +167,11 @@ def run(repo, res, tier):
             res.check("TAB-CLASS", "%s has all fields of StateFields.%s" % (c.name, k), not missing, mod, ps, "%s lacks %s" % (c.name, missing), "the reader passes a keyword the state class does not accept (TypeError)", qualname="CommonRoadSolutionReader._parse_state")
     res.check("TAB-CLASS", "_parse_state instantiates table[state_type](**values)", ret_ok, mod, ps, "_parse_state return", "the parsed values are not passed to the class selected by the state type", qualname="CommonRoadSolutionReader._parse_state")
     # reader and writer walk the same zipped tables (loop or comprehension, with or without list(..))
-    zips = []
-    for cls_, fn in ((rdr, "_parse_state"), (wr, "_create_state_node")):
-        f = cls_.methods[fn]
-        frd = ReachingDefs(f)
-        its = [n.iter for n in ast.walk(f) if isinstance(n, ast.For)] + [g.iter for n in ast.walk(f) if isinstance(n, (ast.ListComp, ast.GeneratorExp, ast.DictComp, ast.SetComp)) for g in n.generators]
-        z = []
-        for it in its:
-            while isinstance(it, ast.Call) and norm(it.func) in ("list", "tuple") and len(it.args) == 1:
-                it = it.args[0]
-            t = canon(it, frd, frd.stmt_of(it), [a.arg for a in f.args.args])
-            if t.startswith("zip("):
-                z.append(t)
-        zips.append(z)
-    want_zip = ["zip(%s.xml_fields, %s.fields)" % ("state_type", "state_type")]
-    res.check("TAB-CLASS", "writer and reader iterate zip(xml_fields, fields) of the state type", zips[0] == zips[1] == want_zip, mod, ps, "state table iteration %s" % zips, "writer and reader pair xml names and fields differently", qualname="CommonRoadSolutionReader._parse_state")
+    # writer and reader pair xml names and fields alike: decided by evaluating both on a state of every type
+    from . import c14ev as _c14ev
+
+    _c14ev.state_rule(repo, res)
+    _c14ev.trajectory_type_rule(repo, res)
 
     # ---------------------------------------------------------------- number formatting
     cse = wr.methods["_create_sub_element"]
@@ -180,48 +187,7 @@ def run(repo, res, tier):
             good = all(norm(a) in (vpar, "np.float64(%s)" % vpar, "float(%s)" % vpar) for a in alts)
         ok = ok and good
     res.check("NUMFMT", "state values are written with the shortest round-trip repr (str of the value / np.float64)", ok, mod, cse, "_create_sub_element text = %s" % ([norm(t.value) for t in texts]), "values are rounded or formatted with limited precision: read-back values are not bit-identical", qualname="CommonRoadSolutionWriter._create_sub_element")
-    pse = rdr.methods["_parse_sub_element"]
-    serd = ReachingDefs(pse)
-    cases = result_cases(mod, pse, serd, [a.arg for a in pse.args.args])
-    ok = bool(cases)
-    kinds = set()
-
-    def conv_of(e):
-        """'float' / 'int' if e is float(<x>.text) / int(<x>.text)"""
-        if isinstance(e, ast.Call) and norm(e.func) in ("float", "int", "np.float64") and len(e.args) == 1 and isinstance(e.args[0], ast.Attribute) and e.args[0].attr == "text":
-            return "float" if norm(e.func) != "int" else "int"
-        return None
-
-    for c_ in cases:
-        txt = c_.text(serd, [a.arg for a in pse.args.args])
-        try:
-            e = ast.parse(txt, mode="eval").body
-        except SyntaxError:
-            ok = False
-            continue
-        gl = [(t, p) for t, p, _n in c_.guards]
-        if isinstance(e, ast.IfExp) and norm(e.test) == "as_float" and conv_of(e.body) == "float" and conv_of(e.orelse) == "int":
-            kinds |= {"float", "int"}
-        elif isinstance(e, ast.IfExp) and norm(e.test) == "not as_float" and conv_of(e.body) == "int" and conv_of(e.orelse) == "float":
-            kinds |= {"float", "int"}
-        elif conv_of(e) == "float" and ("as_float", True) in gl:
-            kinds.add("float")
-        elif conv_of(e) == "int" and ("as_float", True) not in gl:
-            kinds.add("int")
-        elif conv_of(e) == "float" and ("as_float", False) not in gl and ("as_float", True) not in gl and any(conv_of(ast.parse(o.text(serd, [a.arg for a in pse.args.args]), mode="eval").body) == "int" and ("as_float", False) in [(t, p) for t, p, _n in o.guards] for o in cases):
-            kinds.add("float")
-        else:
-            ok = False
-    ok = ok and kinds == {"float", "int"}
-    res.check("NUMFMT", "reader parses with float() / int()", ok, mod, pse, "_parse_sub_element", "element text is not parsed with the exact inverse of the writer's formatting", qualname="CommonRoadSolutionReader._parse_sub_element")
-    ok = False
-    for c_ in ast.walk(ps):
-        if isinstance(c_, ast.Call) and norm(c_.func).endswith("_parse_sub_element"):
-            for kw in c_.keywords:
-                if kw.arg == "as_float" and len(c_.args) >= 2:
-                    nm = canon(c_.args[1], prd, prd.stmt_of(c_), [a.arg for a in ps.args.args])
-                    ok = canon(kw.value, prd, prd.stmt_of(c_), [a.arg for a in ps.args.args]) in ("%s != 'time'" % nm, "'time' != %s" % nm)
-    res.check("NUMFMT", "only 'time' is parsed as int", ok, mod, ps, "_parse_state as_float", "a float field is truncated to int (or time parsed as float)", qualname="CommonRoadSolutionReader._parse_state")
+    # parsing of the element text (float everywhere, int for the time step) is decided by the state round trip (c14ev.state_rule)
     # trajectory node (tag, planning problem id, states in order, time ordering on reading), header numbers and dates:
     # decided by evaluating writer and reader against an element model (c14ev) — see also header_rule above
     c14ev.trajectory_rule(repo, res)
